@@ -99,6 +99,15 @@ class _Element:
     def to_bytes(self):
         return self._group._element_to_bytes(self)
 
+    def __eq__(self, other):
+        if not isinstance(other, _Element):
+            return NotImplemented
+        return self._group is other._group and self._e == other._e
+    def __ne__(self, other):
+        return not self == other
+    def __hash__(self):
+        return hash((id(self._group), self._e))
+
 class IntegerGroup:
     def __init__(self, p, q, g):
         self.q = q # the subgroup order, used for scalars
